@@ -111,15 +111,15 @@ def run(c, replay):
             return
         c.run_layer(b, TESTS[layer], layer, replay=replay, deadline_s=120, env=env)
         return
-    c.run_layer(b, TESTS["totality"], "totality", deadline_s=c.pick(30, 120), env=env,
+    c.run_layer(b, TESTS["totality"], "totality", deadline_s=c.pick(60, 120), env=env,
                 rule="every option name x value x spelling: exactly one of (options, nil) / (nil, error with a message), no panic; non-trivial = accepted vectors")
-    c.run_layer(b, TESTS["pairs"], "pairs", deadline_s=c.pick(40, 400), env=env,
+    c.run_layer(b, TESTS["pairs"], "pairs", deadline_s=c.pick(90, 400), env=env,
                 rule="ordered pairs of accepted single-option vectors: totality; parse(env=E,args=A) == parse(words(E)+A); same through the options file; "
                      "non-trivial = pairs accepted both ways with equal dumps")
-    c.run_layer(b, TESTS["last-wins"], "last-wins", deadline_s=c.pick(30, 200), env=env,
+    c.run_layer(b, TESTS["last-wins"], "last-wins", deadline_s=c.pick(60, 200), env=env,
                 rule="per option: parse([o v1 o v2]) == parse([o v2]), = form, args over env, negations; non-trivial = accepted with equal dumps")
-    c.run_layer(b, TESTS["bind-names"], "bind-names", deadline_s=c.pick(30, 200), env=env,
+    c.run_layer(b, TESTS["bind-names"], "bind-names", deadline_s=c.pick(60, 200), env=env,
                 rule="bind strings from the grammar (names, pairs, triples x contexts x keys): whole keymap == listed (action, argument) pairs in order")
-    c.run_layer(b, TESTS["bind-arguments"], "bind-arguments", deadline_s=c.pick(40, 400), env=env,
+    c.run_layer(b, TESTS["bind-arguments"], "bind-arguments", deadline_s=c.pick(120, 600), env=env,
                 rule="argument-taking actions x delimiter forms x argument texts x contexts: argument preserved verbatim, neighbours intact")
     cli_layer(c)
